@@ -25,6 +25,7 @@ RULE = (
     "distinct = (graph index, caller probe, callee, exemption class)."
     ' Directed graphs (1 in 25): a pre / post / snapshot / invariant probe re-enters its own function every time it'
     ' runs after another checked function ran in between (called by the probe and, every time, by the body).'
+    ' Every other asynchronous graph runs inside a task of a running event loop. Both halves of the rule are judged: an invocation that is not a re-entry is checked, and a re-entry (same function while its contracts run; same object while its invariants, constructor or a public method run, in this very flow) is NOT. Constructions: classes built by __init__, by __new__ alone, without any constructor and named tuples whose invariant calls a public method of the object evaluate each invariant once per construction.'
 )
 ASSUMPTIONS = ["all conditions hold in the bulk of this workload (so 'fully checked' means every contract evaluated); a share of the graphs has one falsy contract"]
 
